@@ -260,7 +260,8 @@ avx_rule_storeX (OrcCompiler *compiler, void *user, OrcInstruction *insn)
   const int offset = compiler->offset * dest->size;
   if (dest->ptr_register == 0) {
     orc_x86_emit_mov_memoffset_reg (compiler, compiler->is_64bit ? 8 : 4,
-        dest->ptr_offset, compiler->exec_reg, compiler->gp_tmpreg);
+        (int)ORC_STRUCT_OFFSET(OrcExecutor, arrays[insn->dest_args[0]]),
+        compiler->exec_reg, compiler->gp_tmpreg);
     ptr_reg = compiler->gp_tmpreg;
   } else {
     ptr_reg = dest->ptr_register;
